@@ -42,6 +42,7 @@ type BResult struct {
 	Unit    []any   `json:"unit,omitempty"`
 	Tpl     string  `json:"tpl"`
 	Facts   []any   `json:"facts"`
+	DstFact []any   `json:"dstfact"`
 	Text    string  `json:"text"`
 	Outcome string  `json:"outcome"` // analysis_err | eval_err | ok | panic | parse_err
 	Err     string  `json:"err,omitempty"`
@@ -112,7 +113,25 @@ var boundsTemplates = map[string]string{
 	"pos_prefix_below": "dst(X) :- src(X), :match_prefix(X, /foo/a).",
 	"pos_prefix_eq":    "dst(X) :- src(X), :match_prefix(X, /foo).",
 	"neg_prefix_other": "dst(X) :- src(X), !:match_prefix(X, /bar).",
-	"none":             "",
+	// literals that carry no (or only negative) type information
+	"ne_nums":       "dst(X) :- src(X), nums(Y), X != Y.",
+	"ne_const_name": "dst(X) :- src(X), X != /foo/a.",
+	"ne_const_num":  "dst(X) :- src(X), X != 7.",
+	"neg_nums":      "dst(X) :- src(X), !nums(X).",
+	// list construction from a typed head / element, list destructuring
+	"cons_head_var":   "dst(L) :- src(S), L = fn:list:cons(S, [1]).",
+	"append_var":      "dst(L) :- src(S), L = fn:list:append([1], S).",
+	"match_cons_head": "dst(H) :- src(L), :match_cons(L, H, T).",
+	"match_cons_tail": "dst(T) :- src(L), :match_cons(L, H, T).",
+	// a name prefix that is spelled like a base type
+	"prefix_number": "dst(X) :- src(X), :match_prefix(X, /number).",
+	// the head argument has input mode (the declaration of dst gets descr [mode("+")])
+	"copy_modein": "dst(X) :- src(X).",
+	// a join of two binary predicates: every column of a row of p2 is feasible for some row, no row as a whole
+	"two_col_rows": "Decl q2(X, Y) bound [/foo, /foo/c].\nDecl p2(X, Y) bound [/foo/b, /name] bound [/foo/c, /foo/c].\nq2(/foo/b/1, /foo/c/2). p2(/foo/b/1, /foo/c/2).\ndst(X) :- q2(X, Y), p2(X, Y).",
+	// a tagged union: the tag of one variant with the fields of another
+	"tagged_fact": "Decl tg(X) bound [fn:TaggedUnion(/kind, /a, fn:Struct(/x, /number), /b, fn:Struct(/y, /string))].\ntg({/kind: /a, /x: 1}). tg({/kind: /b, /x: 1}).\ndst(X) :- src(X).",
+	"none":        "",
 }
 
 func boundsText(c BCase) string {
@@ -124,7 +143,14 @@ func boundsText(c BCase) string {
 		return fmt.Sprintf(" bound [%s]", tyText(any(t)))
 	}
 	fmt.Fprintf(&sb, "Decl src(X) bound [%s]%s.\n", tyText(c.T1), row2(c.T1b))
-	fmt.Fprintf(&sb, "Decl dst(X) bound [%s]%s.\n", tyText(c.T2), row2(c.T2b))
+	if strings.HasSuffix(c.Tpl, "_modein") {
+		fmt.Fprintf(&sb, "Decl dst(X) descr [mode(\"+\")] bound [%s]%s.\n", tyText(c.T2), row2(c.T2b))
+	} else {
+		fmt.Fprintf(&sb, "Decl dst(X) bound [%s]%s.\n", tyText(c.T2), row2(c.T2b))
+	}
+	if strings.Contains(boundsTemplates[c.Tpl], "nums(") {
+		sb.WriteString("Decl nums(X) bound [/number].\nnums(2).\n")
+	}
 	if strings.Contains(boundsTemplates[c.Tpl], "wide(") {
 		sb.WriteString("Decl wide(X) bound [/any].\nwide(1). wide(\"a\"). wide(/foo/a). wide(/bar/b). wide(/foobar/x). wide(fn:pair(1, \"a\")). wide([1, 0]).\n")
 	}
@@ -184,7 +210,7 @@ func toCN(c ast.Constant) any {
 }
 
 func runBounds(c BCase) (res BResult) {
-	res = BResult{ID: c.ID, T1: c.T1, T2: c.T2, T1b: c.T1b, T2b: c.T2b, Unit: c.Unit, Tpl: c.Tpl, Facts: c.Facts, Stored: []BFact{}}
+	res = BResult{ID: c.ID, T1: c.T1, T2: c.T2, T1b: c.T1b, T2b: c.T2b, Unit: c.Unit, Tpl: c.Tpl, Facts: c.Facts, DstFact: c.DstFact, Stored: []BFact{}}
 	if res.T1b == nil {
 		res.T1b = []any{}
 	}
@@ -193,6 +219,9 @@ func runBounds(c BCase) (res BResult) {
 	}
 	if res.Facts == nil {
 		res.Facts = []any{}
+	}
+	if res.DstFact == nil {
+		res.DstFact = []any{}
 	}
 	defer func() {
 		if r := recover(); r != nil {
@@ -222,7 +251,7 @@ func runBounds(c BCase) (res BResult) {
 			continue
 		}
 		store.GetFacts(ast.NewQuery(p), func(a ast.Atom) error {
-			bf := BFact{Pred: p.Symbol, OK: true}
+			bf := BFact{Pred: p.Symbol, OK: true, Arg: []any{"other", a.String()}}
 			if len(a.Args) == 1 {
 				if k, ok := a.Args[0].(ast.Constant); ok {
 					bf.Arg = toCN(k)
